@@ -2592,6 +2592,13 @@ def get_event_from_element(
                 for arg_name in temp_flow_state.arguments:
                     if arg_name not in flow_event_arguments:
                         flow_event.arguments.pop(arg_name, None)
+                # A flow parameter written by position is the parameter at that position (the
+                # events of a flow that was started with named arguments carry the name only)
+                for idx, param in enumerate(flow_config.parameters):
+                    positional_param = f"${idx}"
+                    if positional_param in flow_event.arguments:
+                        value = flow_event.arguments.pop(positional_param)
+                        flow_event.arguments.setdefault(param.name, value)
             return flow_event
         elif element_spec.spec_type == SpecType.ACTION:
             # Action object
